@@ -57,7 +57,7 @@ PLAN = {
                     "suffix handling for how in {inner,left,right} against the exact C02 oracle",
     ),
     'C06': dict(
-        modules=[], level='other', stages=[RTC], stand_in_only=True,
+        modules=['glue_dask'], level='other', stages=[RTC],
         trusted_base=COMMON_TRUST, assumptions=[RTC_NOTE, 'synchronous dask scheduler'],
         explanation="dask glue; decided only by the bounded stand-in: cx, cx_partitions, bounds, total_bounds, area, "
                     "intersects_bounds on from_pandas / parquet frames with 1..n partitions vs the pandas result",
@@ -86,13 +86,13 @@ PLAN = {
                     "wrapper by the run-time checked contract (bounded)",
     ),
     'C09': dict(
-        modules=[], level='other', stages=[RTC], stand_in_only=True,
+        modules=['glue_dask'], level='other', stages=[RTC],
         trusted_base=COMMON_TRUST, assumptions=[RTC_NOTE, 'synchronous dask scheduler'],
         explanation="pack_partitions is dask shuffle glue; decided only by the bounded stand-in (row conservation, order, "
                     "partition count, distance of the ACTIVE geometry)",
     ),
     'C12': dict(
-        modules=[], level='other', stages=[RTC], stand_in_only=True,
+        modules=['glue_dask'], level='other', stages=[RTC],
         trusted_base=COMMON_TRUST, assumptions=[RTC_NOTE, 'local filesystem, synchronous dask scheduler'],
         explanation="parquet metadata glue; decided only by the bounded stand-in: partition_bounds per loaded partition for "
                     "every geometry column (2, 3, 12 partitions), pruning never loses an intersecting row",
@@ -116,22 +116,24 @@ PLAN = {
                     "proved; scalar / array wrappers and boundary by the run-time checked contract (bounded)",
     ),
     'C15': dict(
-        modules=['c14_measures', 'c15_orient'], level='other', stages=[RTC],
+        modules=['c13_bounds', 'c14_measures', 'c15_orient', 'c16_isnull', 'glue_rep', 'glue_polygon'], level='other', stages=[RTC],
         trusted_base=COMMON_TRUST + [NUMPY_TRUST],
         assumptions=[MATH_ARITH, "coordinates finite", RTC_NOTE],
-        explanation="orient_polygons proved (ring-wise identity-or-reverse, decided by the signed area and the shell/hole "
-                    "role, cells outside rings untouched, all stores in bounds); oriented() wrappers, idempotence and input "
-                    "immutability by the run-time checked contract (bounded)",
+        explanation="proved: orient_polygons (ring-wise identity-or-reverse, decided by the signed area and the shell/hole "
+                    "role, zero-area rings untouched, cells outside rings untouched, all stores in bounds) and "
+                    "PolygonArray.oriented / MultiPolygonArray.oriented relative to the pyarrow representation contracts "
+                    "(offsets and missingness kept, kernel preconditions established for every array offset, input buffers "
+                    "unmodified); idempotence and the scalar view by the run-time checked contract (bounded)",
     ),
     'C16': dict(
-        modules=['c16_isnull', 'c13_bounds', 'c14_measures', 'glue_rep'], level='other', stages=[RTC],
+        modules=['c16_isnull', 'c13_bounds', 'c14_measures', 'c15_orient', 'glue_rep', 'glue_polygon'], level='other', stages=[RTC],
         trusted_base=COMMON_TRUST, assumptions=[RTC_NOTE],
         explanation="_perform_extract_isnull_bytemap proved (bit (offset+i) of the validity bitmap, for every offset); "
                     "__getitem__/take/concat/copy/pickle and view-determinacy of every derived quantity by the run-time "
                     "checked contract over random derivation histories (bounded)",
     ),
     'C17': dict(
-        modules=['c13_bounds', 'c14_measures', 'glue_rep'], level='other', stages=[RTC],
+        modules=['c13_bounds', 'c14_measures', 'c15_orient', 'c16_isnull', 'glue_rep', 'glue_polygon'], level='other', stages=[RTC],
         trusted_base=COMMON_TRUST, assumptions=[MATH_ARITH, RTC_NOTE],
         explanation="inertness clauses that are inside proved contracts: an empty coordinate range gives a NaN bounds row and "
                     "contributes nothing to total bounds (C13 spec + lemmas), missing rows are skipped by the map kernels "
